@@ -1170,8 +1170,86 @@ func scenarioTypes(seed int64, idle, frame time.Duration) *verdict {
 	return w.finish(v, 0, 8*time.Second)
 }
 
+// scenarioReceipts: over a real socket every receipt is answered - accepted, bad request when a field is empty, too busy
+// when the queue is full (nobody drains it here: 128 slots) - and the submitter's connection goes on
+func scenarioReceipts(seed int64, idle, frame time.Duration) *verdict {
+	w := newWorld(seed, 5*time.Second, frame)
+	joined := w.r.Intn(2) == 0
+	c := w.s.dial("submitter", true)
+	w.all = append(w.all, c)
+	if joined {
+		c.join(w.sidA)
+	}
+	answer := func(r uint32) (string, bool) {
+		var kind string
+		deadline := time.Now().Add(patience)
+		for time.Now().Before(deadline) {
+			if _, ok := c.waitFor(hagallpb.MsgType_MSG_TYPE_RECEIPT_RESPONSE, 0, func(m hwebsocket.Msg) bool {
+				var b hagallpb.ReceiptResponse
+				m.DataTo(&b)
+				return b.RequestId == r
+			}); ok {
+				return "accepted", true
+			}
+			if _, ok := c.waitFor(hagallpb.MsgType_MSG_TYPE_ERROR_RESPONSE, 0, func(m hwebsocket.Msg) bool {
+				var b hagallpb.ErrorResponse
+				m.DataTo(&b)
+				if b.RequestId == r {
+					kind = fmt.Sprintf("error-%d", int32(b.Code))
+				}
+				return b.RequestId == r
+			}); ok {
+				return kind, true
+			}
+			select {
+			case <-c.closed:
+				return "connection-closed", false
+			default:
+			}
+			time.Sleep(2 * time.Millisecond)
+		}
+		return "nothing", false
+	}
+	submit := func(receipt string, hash, sig []byte) uint32 {
+		r := rid()
+		c.send(&hagallpb.ReceiptRequest{Type: hagallpb.MsgType_MSG_TYPE_RECEIPT_REQUEST, Timestamp: now(), RequestId: r, Receipt: receipt, Hash: hash, Signature: sig})
+		return r
+	}
+	var v *verdict
+	expect := func(what string, r uint32, want string) {
+		if v != nil {
+			return
+		}
+		if got, _ := answer(r); got != want {
+			v = &verdict{"receipt-answer-lost", fmt.Sprintf("%s: expected the answer %s to request %d, the submitter got %s", what, want, r, got)}
+		}
+	}
+	switch w.r.Intn(3) {
+	case 0:
+		expect("a receipt without a hash", submit("r", nil, []byte{1}), fmt.Sprintf("error-%d", int32(hagallpb.ErrorCode_ERROR_CODE_BAD_REQUEST)))
+	case 1:
+		expect("a receipt without a text", submit("", []byte{1}, []byte{1}), fmt.Sprintf("error-%d", int32(hagallpb.ErrorCode_ERROR_CODE_BAD_REQUEST)))
+	default:
+		expect("a receipt without a signature", submit("r", []byte{1}, nil), fmt.Sprintf("error-%d", int32(hagallpb.ErrorCode_ERROR_CODE_BAD_REQUEST)))
+	}
+	for i := 0; i < 128 && v == nil; i++ {
+		expect("a well-formed receipt with room in the queue", submit(fmt.Sprintf("receipt-%d", i), []byte{1, 2}, []byte{3, 4}), "accepted")
+	}
+	for i := 0; i < 3 && v == nil; i++ {
+		expect("a well-formed receipt with the queue full", submit("one too many", []byte{1, 2}, []byte{3, 4}), fmt.Sprintf("error-%d", int32(hagallpb.ErrorCode_ERROR_CODE_SERVER_TOO_BUSY)))
+	}
+	if v == nil && !c.ping(patience) {
+		v = &verdict{"receipt-answer-lost", "the submitter's connection did not survive its refused receipts"}
+	}
+	for len(w.s.receipts) > 0 { // leave the queue as it was found
+		<-w.s.receipts
+	}
+	return w.finish(v, 0, 8*time.Second)
+}
+
 var scenarios = map[string]func(int64, time.Duration, time.Duration) *verdict{
-	"churn": scenarioChurn, "types": scenarioTypes,
+	"receipts": scenarioReceipts,
+	"churn":    scenarioChurn, "types": scenarioTypes,
 	"concurrent": scenarioConcurrent,
 	"order":      scenarioOrder,
 	"malformed":  scenarioMalformed, "fields": scenarioFields, "burst": scenarioBurst, "abrupt": scenarioAbrupt, "stall-pose": scenarioStallPose, "stall-switch": scenarioStallSwitch, "bigframe": scenarioBigFrame,
